@@ -191,6 +191,12 @@ def failing_target(nrec: int, kind: str, n: int) -> bytes:
     recs = (b"\x01a\x00" + struct.pack(">HHLH", 12, 1, 120, 2) + struct.pack(">H", 0xC000 | target)) * nrec
     if kind == "labels":
         tail = b"\x01x" * n + b"\x80"
+    elif kind == "label-levels":
+        # levels of 124 one-byte labels, each level ending in a pointer to the next one, the last in a reserved octet: every
+        # hop starts a run that is short enough by itself
+        per = 124 * 2 + 2
+        tail = b"".join(b"\x01x" * 124 + struct.pack(">H", 0xC000 | (target + (lv + 1) * per)) for lv in range(n - 1))
+        tail += b"\x01x" * 124 + b"\x80"
     else:
         tail = b"".join(struct.pack(">H", 0xC000 | (target + 2 * (h + 1))) for h in range(n)) + b"\x80"
     return header(0x8400, 0, nrec, 0, 0) + recs + tail
@@ -198,7 +204,8 @@ def failing_target(nrec: int, kind: str, n: int) -> bytes:
 
 def families(tier: str) -> Iterator[bytes]:
     for nrec, kind, n in ((100, "labels", 100), (300, "labels", 130), (300, "labels", 1000), (344, "labels", 1890),
-                          (500, "labels", 700), (560, "labels", 250), (560, "hops", 126), (560, "hops", 130), (400, "hops", 1400)):
+                          (500, "labels", 700), (560, "labels", 250), (560, "hops", 126), (560, "hops", 130), (400, "hops", 1400),
+                          (341, "label-levels", 15), (200, "label-levels", 23), (450, "label-levels", 8), (540, "label-levels", 3)):
         yield failing_target(nrec, kind, n)
     depths = list(range(1, 140)) + [200, 500, 900, 980, 990, 1000, 1010, 1100, 2000, 3000, 4000, 4470]
     if tier != "quick":
